@@ -8,6 +8,7 @@ import Prtpy
 import PrtpyProofs.Fit
 import PrtpyProofs.Checkers
 import PrtpyProofs.Oracle
+import PrtpyProofs.Part
 import Batteries.Data.List.Perm
 
 namespace Prtpy.BCProofs
@@ -857,6 +858,1068 @@ def bc_optimal_full : Prop :=
 
 example : BC.binCompletion 5 [] 0 = .ok [[]] := by decide +kernel
 example : BC.binCompletion 5 [0] 1 = .ok [] := by decide +kernel
+
+/-! ### 8. optimality (C04): semantic dominance -/
+
+/-- group `i` fits into slot `i` -/
+def GroupsFit : List (List Nat) → List Nat → Prop
+  | [], [] => True
+  | g :: gs, v :: c => sumL g ≤ v ∧ GroupsFit gs c
+  | _, _ => False
+
+/-- semantic dominance (Martello–Toth): the items `S` can be grouped into slots with capacities `c`.
+    `SDom (replicate n B) R` says that `R` can be packed into `n` bins of capacity `B`. -/
+def SDom (c S : List Nat) : Prop := ∃ gs : List (List Nat), GroupsFit gs c ∧ gs.flatten.Perm S
+
+theorem groupsFit_nil_left {c : List Nat} : GroupsFit [] c ↔ c = [] := by
+  cases c <;> simp [GroupsFit]
+
+theorem groupsFit_nil_right {gs : List (List Nat)} : GroupsFit gs [] ↔ gs = [] := by
+  cases gs <;> simp [GroupsFit]
+
+theorem groupsFit_cons {g : List Nat} {gs : List (List Nat)} {v : Nat} {c : List Nat} :
+    GroupsFit (g :: gs) (v :: c) ↔ sumL g ≤ v ∧ GroupsFit gs c := Iff.rfl
+
+theorem GroupsFit.length_eq : ∀ {gs : List (List Nat)} {c : List Nat}, GroupsFit gs c → gs.length = c.length
+  | [], [], _ => rfl
+  | [], _ :: _, h => h.elim
+  | _ :: _, [], h => h.elim
+  | _ :: _, _ :: _, h => by simp [GroupsFit.length_eq h.2]
+
+theorem SDom.perm_right {c S S' : List Nat} (h : SDom c S) (hp : S.Perm S') : SDom c S' := by
+  obtain ⟨gs, h1, h2⟩ := h
+  exact ⟨gs, h1, h2.trans hp⟩
+
+theorem sdom_nil_left {S : List Nat} : SDom [] S ↔ S = [] := by
+  constructor
+  · rintro ⟨gs, h1, h2⟩
+    rw [groupsFit_nil_right.1 h1] at h2
+    exact h2.symm.eq_nil
+  · rintro rfl; exact ⟨[], trivial, List.Perm.refl _⟩
+
+theorem sumL_erase {l : List Nat} {v : Nat} (h : v ∈ l) : sumL (l.erase v) + v = sumL l := by
+  have := sumL_perm (List.perm_cons_erase h)
+  simp only [sumL] at this
+  omega
+
+/-- replace the item `v` of some group by a whole group `G` that is not heavier -/
+theorem groupsFit_subst {G : List Nat} {v : Nat} (hG : sumL G ≤ v) :
+    ∀ {gs : List (List Nat)} {c : List Nat}, GroupsFit gs c → v ∈ gs.flatten →
+      ∃ gs', GroupsFit gs' c ∧ gs'.flatten.Perm (gs.flatten.erase v ++ G)
+  | [], _, _, hv => by simp at hv
+  | _ :: _, [], h, _ => h.elim
+  | g :: gs, w :: c, h, hv => by
+    by_cases hg : v ∈ g
+    · refine ⟨(g.erase v ++ G) :: gs, ⟨?_, h.2⟩, ?_⟩
+      · have := sumL_erase hg
+        have := h.1
+        rw [Fit.sumL_append]; omega
+      · simp only [List.flatten_cons]
+        rw [List.erase_append_left _ hg]
+        simp only [List.append_assoc]
+        exact List.Perm.append_left _ List.perm_append_comm
+    · have hv' : v ∈ gs.flatten := by
+        simp only [List.flatten_cons, List.mem_append] at hv
+        exact hv.resolve_left hg
+      obtain ⟨gs', h1, h2⟩ := groupsFit_subst hG h.2 hv'
+      refine ⟨g :: gs', ⟨h.1, h1⟩, ?_⟩
+      simp only [List.flatten_cons]
+      rw [List.erase_append_right _ hg, List.append_assoc]
+      exact List.Perm.append_left _ h2
+
+theorem SDom.subst {c S G : List Nat} {v : Nat} (h : SDom c S) (hv : v ∈ S) (hG : sumL G ≤ v) :
+    SDom c (S.erase v ++ G) := by
+  obtain ⟨gs, h1, h2⟩ := h
+  obtain ⟨gs', h3, h4⟩ := groupsFit_subst hG h1 (h2.mem_iff.2 hv)
+  exact ⟨gs', h3, h4.trans ((h2.erase v).append_right G)⟩
+
+theorem sumL_eq_zero_of_pos : ∀ {l : List Nat}, (∀ v ∈ l, 0 < v) → sumL l = 0 → l = []
+  | [], _, _ => rfl
+  | a :: l, hpos, h => by
+    have := hpos a List.mem_cons_self
+    simp only [sumL] at h; omega
+
+/-- **The exchange argument.**  If the completion `c` dominates the completion `S`, and the items left over after
+    `S` fit into the slots `caps`, then so do the items left over after `c`. -/
+theorem sdom_exchange {caps : List Nat} : ∀ {c S R T : List Nat}, SDom c S → SDom caps R →
+    (c ++ T).Perm (S ++ R) → (∀ v ∈ S, 0 < v) → SDom caps T
+  | [], S, R, T, hcS, hR, hp, _ => by
+    rw [sdom_nil_left.1 hcS] at hp
+    exact hR.perm_right hp.symm
+  | v :: c, S, R, T, hcS, hR, hp, hpos => by
+    obtain ⟨gs, hgs, hflat⟩ := hcS
+    match gs, hgs with
+    | G :: gs, hgs =>
+    obtain ⟨hGv, hgs⟩ := hgs
+    simp only [List.flatten_cons] at hflat
+    have hposG : ∀ w ∈ G, 0 < w := fun w hw => hpos w (hflat.subset (List.mem_append_left _ hw))
+    have hpos0 : ∀ w ∈ gs.flatten, 0 < w := fun w hw => hpos w (hflat.subset (List.mem_append_right _ hw))
+    have hvmem : v ∈ S ++ R := hp.subset (by simp)
+    -- it suffices to exhibit `S0`, `R'` with `SDom c S0`, `SDom caps R'`, `S ++ R ~ v :: (S0 ++ R')`
+    suffices hsuff : ∃ S0 R', SDom c S0 ∧ SDom caps R' ∧ (S ++ R).Perm (v :: (S0 ++ R')) ∧ (∀ w ∈ S0, 0 < w) by
+      obtain ⟨S0, R', h1, h2, h3, h4⟩ := hsuff
+      have hp' : (c ++ T).Perm (S0 ++ R') := by
+        have := hp.trans h3
+        simpa using this
+      exact sdom_exchange h1 h2 hp' h4
+    by_cases hvG : v ∈ G
+    · -- `G = [v]`
+      have hG' : G.erase v = [] := by
+        apply sumL_eq_zero_of_pos (fun w hw => hposG w (List.erase_subset hw))
+        have := sumL_erase hvG; omega
+      have hGp : G.Perm [v] := by
+        have := List.perm_cons_erase hvG
+        rwa [hG'] at this
+      refine ⟨gs.flatten, R, ⟨gs, hgs, List.Perm.refl _⟩, hR, ?_, hpos0⟩
+      have : (S ++ R).Perm ((G ++ gs.flatten) ++ R) := hflat.symm.append_right R
+      refine this.trans ?_
+      rw [List.append_assoc]
+      exact (hGp.append_right _)
+    · by_cases hv0 : v ∈ gs.flatten
+      · -- `v` sits in another group: swap it with `G`
+        obtain ⟨gs', h1, h2⟩ := groupsFit_subst hGv hgs hv0
+        refine ⟨gs'.flatten, R, ⟨gs', h1, List.Perm.refl _⟩, hR, ?_, ?_⟩
+        · have e1 : (S ++ R).Perm ((G ++ gs.flatten) ++ R) := hflat.symm.append_right R
+          refine e1.trans ?_
+          have e2 : (G ++ gs.flatten).Perm (v :: gs'.flatten) := by
+            have := (List.perm_cons_erase hv0)
+            refine (this.append_left G).trans ?_
+            refine List.perm_middle.trans ?_
+            exact (List.perm_append_comm.trans h2.symm).cons v
+          exact (e2.append_right R)
+        · intro w hw
+          rcases List.mem_append.1 (h2.subset hw) with hw | hw
+          · exact hpos0 w (List.erase_subset hw)
+          · exact hposG w hw
+      · -- `v` is one of the left-over items: put `G` in its place
+        have hvR : v ∈ R := by
+          rcases List.mem_append.1 hvmem with h | h
+          · rcases List.mem_append.1 (hflat.symm.subset h) with h | h
+            · exact absurd h hvG
+            · exact absurd h hv0
+          · exact h
+        refine ⟨gs.flatten, R.erase v ++ G, ⟨gs, hgs, List.Perm.refl _⟩, hR.subst hvR hGv, ?_, hpos0⟩
+        have e1 : (S ++ R).Perm ((G ++ gs.flatten) ++ R) := hflat.symm.append_right R
+        refine e1.trans ?_
+        have e2 : R.Perm (v :: R.erase v) := List.perm_cons_erase hvR
+        refine (e2.append_left _).trans ?_
+        refine List.perm_middle.trans (List.Perm.cons v ?_)
+        rw [List.append_assoc]
+        refine List.perm_append_comm.trans ?_
+        rw [List.append_assoc]
+
+
+theorem sdom_cons {v : Nat} {c S : List Nat} :
+    SDom (v :: c) S ↔ ∃ G S0, sumL G ≤ v ∧ SDom c S0 ∧ (G ++ S0).Perm S := by
+  constructor
+  · rintro ⟨gs, h1, h2⟩
+    match gs, h1 with
+    | G :: gs, h1 => exact ⟨G, gs.flatten, h1.1, ⟨gs, h1.2, List.Perm.refl _⟩, by simpa using h2⟩
+  · rintro ⟨G, S0, h1, ⟨gs, h2, h3⟩, h4⟩
+    exact ⟨G :: gs, ⟨h1, h2⟩, by simpa using (h3.append_left G).trans h4⟩
+
+/-- a sub-list is dominated (every item gets the slot of its own) -/
+theorem sdom_of_sublist : ∀ {S c : List Nat}, S.Sublist c → SDom c S
+  | _, _, .slnil => ⟨[], trivial, List.Perm.refl _⟩
+  | _, _, .cons a h => sdom_cons.2 ⟨[], _, Nat.zero_le _, sdom_of_sublist h, List.Perm.refl _⟩
+  | _, _, .cons_cons a h =>
+    sdom_cons.2 ⟨[a], _, by simp [sumL], sdom_of_sublist h, List.Perm.refl _⟩
+
+theorem sdom_of_subperm {S c : List Nat} (h : List.Subperm S c) : SDom c S := by
+  obtain ⟨l, hl, hs⟩ := h
+  exact (sdom_of_sublist hs).perm_right hl
+
+theorem sdom_refl (c : List Nat) : SDom c c := sdom_of_sublist (List.Sublist.refl c)
+
+theorem sdom_nil_right (c : List Nat) : SDom c [] := sdom_of_sublist (List.nil_sublist c)
+
+/-- the slots may be listed in any order -/
+theorem SDom.perm_left {c c' S : List Nat} (hp : c.Perm c') : SDom c S → SDom c' S := by
+  induction hp generalizing S with
+  | nil => exact id
+  | cons v _ ih =>
+    intro h
+    obtain ⟨G, S0, h1, h2, h3⟩ := sdom_cons.1 h
+    exact sdom_cons.2 ⟨G, S0, h1, ih h2, h3⟩
+  | swap a b l =>
+    intro h
+    obtain ⟨G, S0, h1, h2, h3⟩ := sdom_cons.1 h
+    obtain ⟨G', S1, h4, h5, h6⟩ := sdom_cons.1 h2
+    refine sdom_cons.2 ⟨G', G ++ S1, h4, sdom_cons.2 ⟨G, S1, h1, h5, List.Perm.refl _⟩, ?_⟩
+    refine List.Perm.trans ?_ h3
+    refine List.Perm.trans ?_ (h6.append_left G)
+    rw [← List.append_assoc, ← List.append_assoc]
+    exact List.perm_append_comm.append_right S1
+  | trans _ _ ih1 ih2 => exact fun h => ih2 (ih1 h)
+
+/-- slots can be split -/
+theorem sdom_append {c1 c2 S : List Nat} :
+    SDom (c1 ++ c2) S ↔ ∃ S1 S2, SDom c1 S1 ∧ SDom c2 S2 ∧ (S1 ++ S2).Perm S := by
+  induction c1 generalizing S with
+  | nil =>
+    constructor
+    · intro h; exact ⟨[], S, sdom_nil_left.2 rfl, h, List.Perm.refl _⟩
+    · rintro ⟨S1, S2, h1, h2, h3⟩
+      rw [sdom_nil_left.1 h1] at h3
+      exact h2.perm_right h3
+  | cons v c1 ih =>
+    constructor
+    · intro h
+      obtain ⟨G, S0, h1, h2, h3⟩ := sdom_cons.1 h
+      obtain ⟨S1, S2, h4, h5, h6⟩ := ih.1 h2
+      refine ⟨G ++ S1, S2, sdom_cons.2 ⟨G, S1, h1, h4, List.Perm.refl _⟩, h5, ?_⟩
+      rw [List.append_assoc]
+      exact (h6.append_left G).trans h3
+    · rintro ⟨S1, S2, h1, h2, h3⟩
+      obtain ⟨G, S0, h4, h5, h6⟩ := sdom_cons.1 h1
+      refine sdom_cons.2 ⟨G, S0 ++ S2, h4, ih.2 ⟨S0, S2, h5, h2, List.Perm.refl _⟩, ?_⟩
+      rw [← List.append_assoc]
+      exact (h6.append_right S2).trans h3
+
+theorem SDom.sum_le : ∀ {c S : List Nat}, SDom c S → sumL S ≤ sumL c
+  | [], S, h => by rw [sdom_nil_left.1 h]; exact Nat.le_refl _
+  | v :: c, S, h => by
+    obtain ⟨G, S0, h1, h2, h3⟩ := sdom_cons.1 h
+    have := SDom.sum_le h2
+    rw [← sumL_perm h3, Fit.sumL_append]
+    simp only [sumL]; omega
+
+/-- dominance is transitive -/
+theorem SDom.trans : ∀ {a b c : List Nat}, SDom a b → SDom b c → SDom a c
+  | [], b, c, hab, hbc => by
+    rw [sdom_nil_left.1 hab] at hbc
+    rw [sdom_nil_left.1 hbc]; exact sdom_nil_left.2 rfl
+  | v :: a, b, c, hab, hbc => by
+    obtain ⟨G, b0, h1, h2, h3⟩ := sdom_cons.1 hab
+    obtain ⟨c1, c2, h4, h5, h6⟩ := sdom_append.1 (hbc.perm_left h3.symm)
+    refine sdom_cons.2 ⟨c1, c2, ?_, SDom.trans h2 h5, h6⟩
+    exact Nat.le_trans h4.sum_le h1
+
+
+/-- non-increasing -/
+abbrev Desc (l : List Nat) : Prop := l.Pairwise (fun a b => b ≤ a)
+
+theorem sortDesc_desc (l : List Nat) : Desc (sortDesc id l) := Part.sortDesc_sorted id l
+
+theorem desc_eq_of_perm {l₁ l₂ : List Nat} (h₁ : Desc l₁) (h₂ : Desc l₂) (hp : l₁.Perm l₂) : l₁ = l₂ :=
+  List.Perm.eq_of_pairwise (fun _ _ _ _ h1 h2 => Nat.le_antisymm h2 h1) h₁ h₂ hp
+
+theorem sublist_of_subperm_desc {l₁ l₂ : List Nat} (hp : List.Subperm l₁ l₂) (h₁ : Desc l₁) (h₂ : Desc l₂) :
+    l₁.Sublist l₂ := by
+  obtain ⟨l, h, h'⟩ := hp
+  rw [← desc_eq_of_perm (h₂.sublist h') h₁ h]
+  exact h'
+
+/-- when the sums agree, the dominating list is not longer, and of the same length only if it is the same
+    multiset -/
+theorem SDom.tight : ∀ {a b : List Nat}, SDom a b → (∀ v ∈ a, 0 < v) → sumL b = sumL a →
+    a.length ≤ b.length ∧ (a.length = b.length → a.Perm b)
+  | [], b, h, _, _ => by rw [sdom_nil_left.1 h]; exact ⟨Nat.le_refl _, fun _ => List.Perm.refl _⟩
+  | v :: a, b, h, hpos, hsum => by
+    obtain ⟨G, b0, h1, h2, h3⟩ := sdom_cons.1 h
+    have hv := hpos v List.mem_cons_self
+    have hle := h2.sum_le
+    rw [← sumL_perm h3, Fit.sumL_append] at hsum
+    simp only [sumL] at hsum
+    have hG : sumL G = v := by omega
+    obtain ⟨ih1, ih2⟩ := SDom.tight h2 (fun w hw => hpos w (List.mem_cons_of_mem _ hw)) (by omega)
+    have hlen : b.length = G.length + b0.length := by rw [← h3.length_eq, List.length_append]
+    have hGne : 1 ≤ G.length := by
+      cases G with
+      | nil => simp only [sumL] at hG; omega
+      | cons _ _ => simp
+    refine ⟨by simp only [List.length_cons]; omega, ?_⟩
+    intro heq
+    simp only [List.length_cons] at heq
+    have hG1 : G.length = 1 := by omega
+    match G, hG1, hG with
+    | [w], _, hG =>
+      simp only [sumL] at hG
+      have : w = v := by omega
+      subst this
+      exact ((ih2 (by omega)).cons w).trans h3
+
+
+/-! ### 9. optimality: the dominance test implies semantic dominance; `found` and `checkDom` are complete -/
+
+theorem groupsFit_of_fits : ∀ {gs : List (List Nat)} {l1 : List Nat}, gs.length = l1.length →
+    BC.fits l1 (gs.map sumL) = true → GroupsFit gs l1
+  | [], [], _, _ => trivial
+  | [], _ :: _, h, _ => by simp at h
+  | _ :: _, [], h, _ => by simp at h
+  | g :: gs, v :: l1, h, hf => by
+    simp only [BC.fits, List.map_cons, List.zip_cons_cons, List.all_cons, Bool.and_eq_true,
+      decide_eq_true_eq] at hf
+    exact ⟨hf.1, groupsFit_of_fits (by simpa using h) hf.2⟩
+
+/-- an arrangement by slot numbers yields an arrangement by groups -/
+theorem sdom_of_locs {l1 l2 locs : List Nat} (h1 : locs.length = l2.length) (h2 : ∀ i ∈ locs, i < l1.length)
+    (h3 : BC.fits l1 (BC.slotTotals l1.length l2 locs) = true) : SDom l1 l2 := by
+  obtain ⟨e1, e2, e3, e4⟩ := Oracle.replay_spec id l2 locs (Bins.new l1.length) h1
+    (by simpa [Bins.new] using h2) (by simp [Bins.new, binSum, sumL])
+  generalize (List.foldl (fun b (p : Nat × Nat) => Bins.add id b p.fst p.snd) (Bins.new l1.length)
+    (l2.zip locs)) = b' at e1 e2 e3 e4
+  simp only [Bins.new, List.length_replicate, List.flatten_replicate_nil, List.nil_append,
+    List.map_id] at e1 e2 e4
+  rw [slotTotals_eq_sumsOf, Oracle.sumsOf_eq, ← e4, e3] at h3
+  refine ⟨_, groupsFit_of_fits e1 ?_, e2⟩
+  have : binSum id = sumL := funext binSum_id
+  rwa [this] at h3
+
+/-- `is_dominant(l1, l2)` implies semantic dominance -/
+theorem isDom_sdom {l1 l2 : List Nat} (h : BC.isDom l1 l2 = true) : SDom l1 l2 := by
+  obtain ⟨locs, h1, h2, h3⟩ := isDom_sound h
+  exact sdom_of_locs h1 h2 h3
+
+example : SDom [8, 5] [4, 4, 3] := isDom_sdom (by decide)
+
+
+/-- the list `found_completions` of `find_bin_completions`, before deduplication and the dominance filter -/
+def found (x B : Nat) (items : List Nat) (y : Nat) : List (List Nat) :=
+  [y] :: (List.range (items.length + 1)).flatMap fun r =>
+    (BC.combs r items).flatMap fun fc => BC.contrib x y B items fc
+
+theorem completions_eq {x B : Nat} {items : List Nat} {y : Nat}
+    (hy : items.find? (fun i => decide (x + i ≤ B)) = some y) (hy0 : y ≠ 0) :
+    BC.completions x items B = BC.checkDom (BC.uniq (sortDesc sumL (found x B items y))) := by
+  have hne : items.isEmpty = false := by
+    cases items with
+    | nil => simp at hy
+    | cons _ _ => rfl
+  unfold BC.completions
+  simp only [hne, Bool.false_eq_true, if_false, hy, Option.getD_some, if_neg hy0, found]
+
+theorem completions_eq_nil {x B : Nat} {items : List Nat}
+    (hy : items.find? (fun i => decide (x + i ≤ B)) = none) : BC.completions x items B = [] := by
+  unfold BC.completions
+  simp [hy]
+
+/-- every feasible non-empty completion `S` is dominated by a member of `found` -/
+theorem found_complete {x B : Nat} {items S : List Nat} (y : Nat) (hd : Desc items)
+    (hS : List.Subperm S items) (hne : S ≠ []) (hfit : x + sumL S ≤ B) :
+    ∃ c ∈ found x B items y, SDom c S := by
+  have hperm := Fit.sortDesc_perm id S
+  have hsub : (sortDesc id S).Sublist items :=
+    sublist_of_subperm_desc ((hperm.subperm_right).2 hS) (sortDesc_desc S) hd
+  have hfc := combs_complete hsub
+  have hlen : (sortDesc id S).length < items.length + 1 := Nat.lt_succ_of_le hsub.length_le
+  have hsum : sumL (sortDesc id S) = sumL S := sumL_perm hperm
+  have hfcne : (sortDesc id S).isEmpty = false := by
+    cases h : sortDesc id S with
+    | nil => rw [h] at hperm; exact absurd hperm.symm.eq_nil hne
+    | cons _ _ => rfl
+  have key : ∃ c ∈ BC.contrib x y B items (sortDesc id S), SDom c S := by
+    unfold BC.contrib
+    rw [if_neg (by omega)]
+    dsimp only
+    cases hup : BC.undPairs (x + sumL (sortDesc id S)) y (BC.lwi items (sortDesc id S)) B with
+    | nil =>
+      simp only [List.isEmpty_nil, Bool.not_true, Bool.false_eq_true, if_false, hfcne, Bool.not_false,
+        if_true, List.mem_singleton, exists_eq_left]
+      exact sdom_of_subperm hperm.symm.subperm
+    | cons p up =>
+      refine ⟨sortDesc id (p ++ sortDesc id S), by simp, ?_⟩
+      apply sdom_of_subperm
+      refine (List.Perm.subperm_left (Fit.sortDesc_perm id _)).2 ?_
+      exact hperm.symm.subperm.trans (List.sublist_append_right _ _).subperm
+  obtain ⟨c, hc, hdom⟩ := key
+  refine ⟨c, ?_, hdom⟩
+  unfold found
+  refine List.mem_cons_of_mem _ ?_
+  simp only [List.mem_flatMap, List.mem_range]
+  exact ⟨_, hlen, _, hfc, hc⟩
+
+/-- all members of `found` are non-increasing lists -/
+theorem found_desc {x B : Nat} {items c : List Nat} {y : Nat} (hd : Desc items)
+    (hc : c ∈ found x B items y) : Desc c := by
+  unfold found at hc
+  rcases List.mem_cons.1 hc with rfl | hc
+  · simp [Desc]
+  · simp only [List.mem_flatMap, List.mem_range] at hc
+    obtain ⟨r, _, fc, hfc, hc⟩ := hc
+    unfold BC.contrib at hc
+    split at hc
+    · cases hc
+    · dsimp only at hc
+      split at hc
+      · simp only [List.mem_append, or_self, List.mem_map] at hc
+        obtain ⟨p, _, rfl⟩ := hc
+        exact sortDesc_desc _
+      · split at hc
+        · rw [List.mem_singleton] at hc
+          rw [hc]
+          exact hd.sublist (combs_sublist r items fc hfc).1
+        · cases hc
+
+
+section uniq
+variable {β : Type} [BEq β] [LawfulBEq β]
+
+theorem uniq_aux : ∀ (l out : List β), out.Nodup →
+    (l.foldl (fun out e => if out.contains e then out else out ++ [e]) out).Nodup ∧
+    ∀ e, (e ∈ out ∨ e ∈ l) → e ∈ l.foldl (fun out e => if out.contains e then out else out ++ [e]) out
+  | [], out, h => ⟨h, fun e he => he.resolve_right (by simp)⟩
+  | a :: l, out, h => by
+    rw [List.foldl_cons]
+    by_cases ha : out.contains a = true
+    · rw [if_pos ha]
+      obtain ⟨h1, h2⟩ := uniq_aux l out h
+      refine ⟨h1, fun e he => h2 e ?_⟩
+      rcases he with he | he
+      · exact Or.inl he
+      · rcases List.mem_cons.1 he with rfl | he
+        · exact Or.inl (by simpa using ha)
+        · exact Or.inr he
+    · rw [if_neg ha]
+      have ha' : a ∉ out := by simpa using ha
+      obtain ⟨h1, h2⟩ := uniq_aux l (out ++ [a]) (by
+        rw [List.nodup_append]
+        exact ⟨h, by simp, fun x hx y hy => by
+          rw [List.mem_singleton] at hy; subst hy; exact fun e => ha' (e ▸ hx)⟩)
+      refine ⟨h1, fun e he => h2 e ?_⟩
+      rcases he with he | he
+      · exact Or.inl (List.mem_append_left _ he)
+      · rcases List.mem_cons.1 he with rfl | he
+        · exact Or.inl (by simp)
+        · exact Or.inr he
+
+theorem uniq_nodup (l : List β) : (BC.uniq l).Nodup := (uniq_aux l [] List.nodup_nil).1
+
+theorem mem_uniq_iff {e : β} {l : List β} : e ∈ BC.uniq l ↔ e ∈ l :=
+  ⟨mem_uniq, fun h => (uniq_aux l [] List.nodup_nil).2 e (Or.inr h)⟩
+
+/-- what `list_without_items` keeps -/
+theorem mem_lwi_of_not_mem {e : β} : ∀ {rem l : List β}, e ∈ l → e ∉ rem → e ∈ BC.lwi l rem
+  | [], _, h, _ => h
+  | r :: rem, l, h, hn => by
+    rw [lwi_cons]
+    refine mem_lwi_of_not_mem ?_ (fun h' => hn (List.mem_cons_of_mem _ h'))
+    exact (List.mem_erase_of_ne (fun e' => hn (by subst e'; exact List.mem_cons_self))).2 h
+
+end uniq
+
+/-! the dominance filter -/
+
+/-- what the loops of `check_for_dominance` guarantee about every entry of `dominated` -/
+def DomOk (comps dom : List (List Nat)) : Prop :=
+  ∀ b ∈ dom, ∃ a ∈ comps, a ≠ b ∧ BC.isDom a b = true
+
+theorem domInner_ok {comps : List (List Nat)} {a : List Nat} (ha : a ∈ comps) :
+    ∀ (rest dom : List (List Nat)), (∀ b ∈ rest, b ∈ comps) → a ∉ rest → DomOk comps dom →
+      DomOk comps (BC.domInner a rest dom)
+  | [], dom, _, _, h => h
+  | b :: rest, dom, hsub, hna, h => by
+    have hab : a ≠ b := fun e => hna (e ▸ List.mem_cons_self)
+    have hsub' : ∀ b' ∈ rest, b' ∈ comps := fun b' hb' => hsub b' (List.mem_cons_of_mem _ hb')
+    have hna' : a ∉ rest := fun h' => hna (List.mem_cons_of_mem _ h')
+    rw [BC.domInner]
+    split
+    · exact domInner_ok ha rest dom hsub' hna' h
+    · split
+      · rename_i hd
+        refine domInner_ok ha rest _ hsub' hna' ?_
+        intro c hc
+        rcases List.mem_append.1 hc with hc | hc
+        · exact h c hc
+        · rw [List.mem_singleton] at hc
+          subst hc
+          exact ⟨a, ha, hab, hd⟩
+      · split
+        · rename_i hd
+          intro c hc
+          rcases List.mem_append.1 hc with hc | hc
+          · exact h c hc
+          · rw [List.mem_singleton] at hc
+            subst hc
+            exact ⟨b, hsub b List.mem_cons_self, fun e => hab e.symm, hd⟩
+        · exact domInner_ok ha rest dom hsub' hna' h
+
+theorem domOuter_ok {comps : List (List Nat)} : ∀ (l dom : List (List Nat)), (∀ b ∈ l, b ∈ comps) →
+    l.Nodup → DomOk comps dom → DomOk comps (BC.domOuter l dom)
+  | [], dom, _, _, h => by simpa [BC.domOuter] using h
+  | [_], dom, _, _, h => by simpa [BC.domOuter] using h
+  | a :: b :: rest, dom, hsub, hnd, h => by
+    simp only [BC.domOuter]
+    have hsub' : ∀ c ∈ b :: rest, c ∈ comps := fun c hc => hsub c (List.mem_cons_of_mem _ hc)
+    have hnd' := (List.nodup_cons.1 hnd)
+    split
+    · exact domOuter_ok (b :: rest) dom hsub' hnd'.2 h
+    · exact domOuter_ok (b :: rest) _ hsub' hnd'.2
+        (domInner_ok (hsub a List.mem_cons_self) (b :: rest) dom hsub' hnd'.1 h)
+
+/-- **`check_for_dominance` is complete**: every completion it drops is dominated by one it keeps -/
+theorem checkDom_complete {comps : List (List Nat)} {M : Nat} (hnd : comps.Nodup)
+    (hgood : ∀ c ∈ comps, Desc c ∧ (∀ v ∈ c, 0 < v) ∧ sumL c ≤ M) (c : List Nat) (hc : c ∈ comps) :
+    ∃ c' ∈ BC.checkDom comps, SDom c' c := by
+  by_cases hlen : comps.length ≤ 1
+  · exact ⟨c, by unfold BC.checkDom; rw [if_pos hlen]; exact hc, sdom_refl c⟩
+  · have hok : DomOk comps (BC.domOuter comps []) :=
+      domOuter_ok comps [] (fun _ h => h) hnd (fun _ h => by cases h)
+    by_cases hcd : c ∈ BC.domOuter comps []
+    · obtain ⟨a, ha, hne, hdom⟩ := hok c hcd
+      have hs := isDom_sdom hdom
+      have hle := hs.sum_le
+      obtain ⟨ga1, ga2, ga3⟩ := hgood a ha
+      obtain ⟨gc1, gc2, gc3⟩ := hgood c hc
+      have hdec : sumL c < sumL a ∨ (sumL c = sumL a ∧ a.length < c.length) := by
+        by_cases heq : sumL c = sumL a
+        · right
+          obtain ⟨t1, t2⟩ := hs.tight ga2 heq
+          refine ⟨heq, Nat.lt_of_le_of_ne t1 ?_⟩
+          intro hl
+          exact hne (desc_eq_of_perm ga1 gc1 (t2 hl))
+        · left; omega
+      obtain ⟨c', hc', hdom'⟩ := checkDom_complete hnd hgood a ha
+      exact ⟨c', hc', hdom'.trans hs⟩
+    · refine ⟨c, ?_, sdom_refl c⟩
+      unfold BC.checkDom
+      rw [if_neg hlen]
+      exact (Fit.sortDesc_perm _ _).mem_iff.2 (mem_lwi_of_not_mem hc hcd)
+termination_by (M - sumL c, c.length)
+decreasing_by
+  have := (hgood a ha).2.2
+  have := (hgood c hc).2.2
+  rcases hdec with h | ⟨h1, h2⟩
+  · exact Prod.Lex.left _ _ (by omega)
+  · rw [h1]; exact Prod.Lex.right _ h2
+
+
+/-! ### 10. optimality: some offered completion leads to an optimal continuation -/
+
+theorem le_sumL_of_mem : ∀ {l : List Nat} {v : Nat}, v ∈ l → v ≤ sumL l
+  | a :: l, v, h => by
+    rcases List.mem_cons.1 h with rfl | h
+    · simp only [sumL]; omega
+    · have := le_sumL_of_mem h
+      simp only [sumL]; omega
+
+theorem found_spec {x B : Nat} {items c : List Nat} {y : Nat}
+    (hy : items.find? (fun i => decide (x + i ≤ B)) = some y) (hc : c ∈ found x B items y) :
+    IsCompletion x B items c := by
+  unfold found at hc
+  rcases List.mem_cons.1 hc with rfl | hc
+  · have hmem := List.mem_of_find?_eq_some hy
+    have hfit := List.find?_some hy
+    simp only [decide_eq_true_eq] at hfit
+    exact ⟨List.singleton_subperm_iff.2 hmem, by simp only [sumL]; omega⟩
+  · simp only [List.mem_flatMap] at hc
+    obtain ⟨r, _, fc, hfc, hc⟩ := hc
+    exact contrib_spec (combs_sublist r items fc hfc).1 hc
+
+/-- **Completeness of `find_bin_completions`** (on non-increasing positive items): whatever feasible set `S`
+    of remaining items shares the bin with `x`, some offered completion dominates it; and if nothing is
+    offered, nothing fits. -/
+theorem completions_complete {x B : Nat} {items S : List Nat} (hd : Desc items) (hpos : ∀ v ∈ items, 0 < v)
+    (hS : List.Subperm S items) (hfit : x + sumL S ≤ B) :
+    (BC.completions x items B = [] ∧ S = []) ∨ ∃ c ∈ BC.completions x items B, SDom c S := by
+  cases hy : items.find? (fun i => decide (x + i ≤ B)) with
+  | none =>
+    left
+    refine ⟨completions_eq_nil hy, ?_⟩
+    cases S with
+    | nil => rfl
+    | cons s S =>
+      exfalso
+      have hs : s ∈ items := hS.subset List.mem_cons_self
+      have := List.find?_eq_none.1 hy s hs
+      simp only [decide_eq_true_eq] at this
+      simp only [sumL] at hfit
+      omega
+  | some y =>
+    right
+    have hymem := List.mem_of_find?_eq_some hy
+    have hy0 : y ≠ 0 := by have := hpos y hymem; omega
+    rw [completions_eq hy hy0]
+    have hmem : ∀ c, c ∈ BC.uniq (sortDesc sumL (found x B items y)) ↔ c ∈ found x B items y :=
+      fun c => mem_uniq_iff.trans (Fit.sortDesc_perm _ _).mem_iff
+    have hgood : ∀ c ∈ BC.uniq (sortDesc sumL (found x B items y)),
+        Desc c ∧ (∀ v ∈ c, 0 < v) ∧ sumL c ≤ B := by
+      intro c hc
+      have hc' := (hmem c).1 hc
+      obtain ⟨h1, h2⟩ := found_spec hy hc'
+      exact ⟨found_desc hd hc', fun v hv => hpos v (h1.subset hv), by omega⟩
+    have hcomp := checkDom_complete (uniq_nodup _) hgood
+    by_cases hne : S = []
+    · subst hne
+      obtain ⟨c', hc', _⟩ := hcomp [y] ((hmem _).2 (by simp [found]))
+      exact ⟨c', hc', sdom_nil_right c'⟩
+    · obtain ⟨c, hc, hcS⟩ := found_complete y hd hS hne hfit
+      obtain ⟨c', hc', hc'c⟩ := hcomp c ((hmem c).2 hc)
+      exact ⟨c', hc', hc'c.trans hcS⟩
+
+/-- `R` can be packed into `n` bins of capacity `B` -/
+abbrev Packs (B n : Nat) (R : List Nat) : Prop := SDom (List.replicate n B) R
+
+/-- take out the bin that holds `x` -/
+theorem extract_bin {B x : Nat} : ∀ (m : Nat) (T : List Nat), Packs B m T → x ∈ T →
+    ∃ S R, 1 ≤ m ∧ T.Perm (x :: (S ++ R)) ∧ x + sumL S ≤ B ∧ Packs B (m - 1) R
+  | 0, T, h, hx => by
+    rw [Packs, List.replicate_zero, sdom_nil_left] at h
+    subst h; cases hx
+  | m + 1, T, h, hx => by
+    rw [Packs, List.replicate_succ] at h
+    obtain ⟨G, S0, h1, h2, h3⟩ := sdom_cons.1 h
+    rcases List.mem_append.1 (h3.symm.subset hx) with hG | hS0
+    · refine ⟨G.erase x, S0, by omega, ?_, ?_, h2⟩
+      · exact h3.symm.trans ((List.perm_cons_erase hG).append_right S0)
+      · have := sumL_erase hG; omega
+    · obtain ⟨S, R', hm, e1, e2, e3⟩ := extract_bin m S0 h2 hS0
+      refine ⟨S, G ++ R', by omega, ?_, e2, ?_⟩
+      · refine h3.symm.trans ((e1.append_left G).trans ?_)
+        refine List.perm_middle.trans (List.Perm.cons x ?_)
+        rw [← List.append_assoc, ← List.append_assoc]
+        exact List.perm_append_comm.append_right R'
+      · show SDom (List.replicate (m + 1 - 1) B) (G ++ R')
+        have : m + 1 - 1 = (m - 1) + 1 := by omega
+        rw [this, List.replicate_succ]
+        exact sdom_cons.2 ⟨G, R', h1, e3, List.Perm.refl _⟩
+
+/-- **One step of bin completion loses nothing**: if `x :: upd` fits into `m` bins then either no completion
+    is offered and `upd` fits into `m - 1` bins, or for some offered completion `c` the rest
+    `lwi upd c` fits into `m - 1` bins. -/
+theorem step_complete {B x m : Nat} {upd : List Nat} (hd : Desc upd) (hpos : ∀ v ∈ upd, 0 < v)
+    (h : Packs B m (x :: upd)) :
+    1 ≤ m ∧ ((BC.completions x upd B = [] ∧ Packs B (m - 1) upd) ∨
+      ∃ c ∈ BC.completions x upd B, Packs B (m - 1) (BC.lwi upd c)) := by
+  obtain ⟨S, R, hm, hp, hfit, hR⟩ := extract_bin m (x :: upd) h List.mem_cons_self
+  have hp' : upd.Perm (S ++ R) := hp.cons_inv
+  have hS : List.Subperm S upd := (List.sublist_append_left S R).subperm.trans hp'.symm.subperm
+  refine ⟨hm, ?_⟩
+  rcases completions_complete hd hpos hS hfit with ⟨h1, rfl⟩ | ⟨c, hc, hcS⟩
+  · exact Or.inl ⟨h1, hR.perm_right (by simpa using hp'.symm)⟩
+  · refine Or.inr ⟨c, hc, ?_⟩
+    have hcu := (completions_spec hc).1
+    exact sdom_exchange hcS hR ((lwi_perm hcu).trans hp') (fun v hv => hpos v (hS.subset hv))
+
+
+/-! ### 11. optimality: how much fuel suffices -/
+
+theorem length_flatMap_le {β γ : Type} (f : β → List γ) (K : Nat) :
+    ∀ (l : List β), (∀ a ∈ l, (f a).length ≤ K) → (l.flatMap f).length ≤ l.length * K
+  | [], _ => by simp
+  | a :: l, h => by
+    have h1 := h a List.mem_cons_self
+    have ih := length_flatMap_le f K l (fun b hb => h b (List.mem_cons_of_mem _ hb))
+    simp only [List.flatMap_cons, List.length_append, List.length_cons, Nat.add_mul]
+    omega
+
+theorem length_combs_le : ∀ (r : Nat) (items : List Nat), (BC.combs r items).length ≤ 2 ^ items.length
+  | 0, items => by rw [combs_zero]; exact Nat.one_le_two_pow
+  | _ + 1, [] => by simp [BC.combs]
+  | r + 1, x :: xs => by
+    have h1 := length_combs_le r xs
+    have h2 := length_combs_le (r + 1) xs
+    simp only [BC.combs, List.length_append, List.length_map, List.length_cons, Nat.pow_succ]
+    omega
+
+theorem length_undPairsLoop_le (c y B : Nat) (items : List Nat) : ∀ (fuel s e : Nat) (acc : List (List Nat)),
+    (BC.undPairsLoop c y B items fuel s e acc).length ≤ acc.length + fuel
+  | 0, _, _, acc => by simp [BC.undPairsLoop]
+  | fuel + 1, s, e, acc => by
+    rw [BC.undPairsLoop]
+    split
+    · dsimp only
+      split
+      · have := length_undPairsLoop_le c y B items fuel (s + 1) e acc; omega
+      · split
+        · have := length_undPairsLoop_le c y B items fuel s (e - 1) acc; omega
+        · have := length_undPairsLoop_le c y B items fuel (s + 1) (e - 1)
+            ([items.getD s 0, items.getD e 0] :: acc)
+          simp only [List.length_cons] at this; omega
+    · simp
+
+theorem length_undPairs_le (c y B : Nat) (items : List Nat) : (BC.undPairs c y items B).length ≤ items.length := by
+  have := length_undPairsLoop_le c y B items items.length 0 (items.length - 1) []
+  simpa [BC.undPairs] using this
+
+theorem length_contrib_le (x y B : Nat) (items fc : List Nat) :
+    (BC.contrib x y B items fc).length ≤ 2 * items.length + 1 := by
+  unfold BC.contrib
+  split
+  · simp
+  · dsimp only
+    have h1 := length_undPairs_le (x + sumL fc) y B (BC.lwi items fc)
+    have h2 := (lwi_sublist items fc).length_le
+    split
+    · simp only [List.length_append, List.length_map]; omega
+    · split <;> simp
+
+theorem length_uniq_aux {β : Type} [BEq β] : ∀ (l out : List β),
+    (l.foldl (fun out e => if out.contains e then out else out ++ [e]) out).length ≤ out.length + l.length
+  | [], out => by simp
+  | a :: l, out => by
+    rw [List.foldl_cons]
+    have := length_uniq_aux l (if out.contains a then out else out ++ [a])
+    refine Nat.le_trans this ?_
+    split <;> simp <;> omega
+
+theorem length_uniq_le {β : Type} [BEq β] (l : List β) : (BC.uniq l).length ≤ l.length := by
+  have := length_uniq_aux l []
+  simp only [List.length_nil, Nat.zero_add] at this
+  exact this
+
+theorem length_checkDom_le (comps : List (List Nat)) : (BC.checkDom comps).length ≤ comps.length := by
+  unfold BC.checkDom
+  split
+  · exact Nat.le_refl _
+  · rw [(Fit.sortDesc_perm _ _).length_eq]
+    exact (lwi_sublist _ _).length_le
+
+/-- a bound on the number of completions offered for `n` remaining items -/
+def compBound (n : Nat) : Nat := 1 + (n + 1) * (2 ^ n * (2 * n + 1))
+
+theorem length_found_le (x B : Nat) (items : List Nat) (y : Nat) :
+    (found x B items y).length ≤ compBound items.length := by
+  unfold found compBound
+  have h := length_flatMap_le (fun r => (BC.combs r items).flatMap fun fc => BC.contrib x y B items fc)
+    (2 ^ items.length * (2 * items.length + 1)) (List.range (items.length + 1)) (by
+      intro r _
+      refine Nat.le_trans (length_flatMap_le _ (2 * items.length + 1) _
+        (fun fc _ => length_contrib_le x y B items fc)) ?_
+      exact Nat.mul_le_mul_right _ (length_combs_le r items))
+  simp only [List.length_range] at h
+  simp only [List.length_cons]
+  omega
+
+theorem length_completions_le (x B : Nat) (items : List Nat) :
+    (BC.completions x items B).length ≤ compBound items.length := by
+  cases hy : items.find? (fun i => decide (x + i ≤ B)) with
+  | none => rw [completions_eq_nil hy]; simp
+  | some y =>
+    by_cases hy0 : y = 0
+    · have : BC.completions x items B = [] := by
+        unfold BC.completions
+        simp [hy, hy0]
+      rw [this]; simp
+    · rw [completions_eq hy hy0]
+      refine Nat.le_trans (length_checkDom_le _) (Nat.le_trans (length_uniq_le _) ?_)
+      rw [(Fit.sortDesc_perm _ _).length_eq]
+      exact length_found_le x B items y
+
+
+/-- the number of `search` iterations a branch with `n` remaining items can cause (itself and all its
+    descendants) -/
+def branchWeight : Nat → Nat
+  | 0 => 1
+  | n + 1 => (1 + compBound n) * branchWeight n
+
+theorem branchWeight_pos : ∀ n, 1 ≤ branchWeight n
+  | 0 => Nat.le_refl _
+  | n + 1 => by
+    have := branchWeight_pos n
+    simp only [branchWeight]
+    exact Nat.le_trans this (Nat.le_mul_of_pos_left _ (by omega))
+
+theorem branchWeight_succ_le (n : Nat) : branchWeight n ≤ branchWeight (n + 1) := by
+  simp only [branchWeight]
+  exact Nat.le_mul_of_pos_left _ (by omega)
+
+theorem branchWeight_mono {n m : Nat} (h : n ≤ m) : branchWeight n ≤ branchWeight m := by
+  induction h with
+  | refl => exact Nat.le_refl _
+  | step _ ih => exact Nat.le_trans ih (branchWeight_succ_le _)
+
+/-- total weight of a queue of branches -/
+def queueWeight (q : List BC.Branch) : Nat := sumL (q.map fun b => branchWeight b.items.length)
+
+theorem queueWeight_nil : queueWeight [] = 0 := rfl
+
+theorem queueWeight_cons (b : BC.Branch) (q : List BC.Branch) :
+    queueWeight (b :: q) = branchWeight b.items.length + queueWeight q := rfl
+
+theorem queueWeight_append (q₁ q₂ : List BC.Branch) :
+    queueWeight (q₁ ++ q₂) = queueWeight q₁ + queueWeight q₂ := by
+  simp [queueWeight, Fit.sumL_append]
+
+theorem spawn_weight {B bestLen : Nat} {cb : BC.Branch} {x : Nat} {upd : List Nat} :
+    ∀ (others : List (List Nat)) (acc : List BC.Branch),
+      queueWeight (others.foldl (fun (acc : List BC.Branch) comp =>
+          let ni := BC.lwi upd comp
+          let nb := (cb.bins ++ [[x]]).modify cb.idx (· ++ comp)
+          if decide (bestLen * B ≤ nb.length * B + sumL ni) then acc else acc ++ [⟨ni, nb, cb.idx + 1⟩]) acc)
+        ≤ queueWeight acc + others.length * branchWeight upd.length
+  | [], acc => by simp
+  | comp :: others, acc => by
+    rw [List.foldl_cons]
+    refine Nat.le_trans (spawn_weight others _) ?_
+    have hw : branchWeight (BC.lwi upd comp).length ≤ branchWeight upd.length :=
+      branchWeight_mono (lwi_sublist upd comp).length_le
+    simp only [List.length_cons, Nat.add_mul, Nat.one_mul]
+    split
+    · omega
+    · rw [queueWeight_append, queueWeight_cons, queueWeight_nil]
+      dsimp only
+      omega
+
+/-- processing a branch replaces its weight by strictly less spawned weight -/
+theorem runBranch_weight (B bestLen : Nat) : ∀ (fuel : Nat) (cb : BC.Branch) (spawned : List BC.Branch),
+    queueWeight (BC.runBranch B bestLen fuel cb spawned).2 + 1 ≤
+      queueWeight spawned + branchWeight cb.items.length
+  | 0, cb, spawned => by
+    have := branchWeight_pos cb.items.length
+    simp only [BC.runBranch]; omega
+  | fuel + 1, cb, spawned => by
+    have hpos := branchWeight_pos cb.items.length
+    rw [BC.runBranch]
+    split
+    · dsimp only; omega
+    · rename_i x upd hitems
+      have hlen := length_completions_le x B upd
+      have hW : branchWeight cb.items.length = (1 + compBound upd.length) * branchWeight upd.length := by
+        rw [hitems]; rfl
+      rw [hW, Nat.add_mul, Nat.one_mul]
+      have hposu := branchWeight_pos upd.length
+      dsimp only
+      generalize BC.completions x upd B = comps at hlen ⊢
+      cases comps with
+      | nil =>
+        dsimp only
+        have hmul : 0 ≤ compBound upd.length * branchWeight upd.length := Nat.zero_le _
+        split
+        · dsimp only; omega
+        · split
+          · dsimp only; omega
+          · have := runBranch_weight B bestLen fuel ⟨upd, cb.bins ++ [[x]], cb.idx + 1⟩ spawned
+            dsimp only at this
+            omega
+      | cons c0 others =>
+        dsimp only
+        have hsp := spawn_weight (B := B) (bestLen := bestLen) (cb := cb) (x := x) (upd := upd) others spawned
+        simp only [List.length_cons] at hlen
+        have hmul : (others.length + 1) * branchWeight upd.length ≤
+            compBound upd.length * branchWeight upd.length := Nat.mul_le_mul_right _ hlen
+        rw [Nat.add_mul, Nat.one_mul] at hmul
+        have hw0 : branchWeight (BC.lwi upd c0).length ≤ branchWeight upd.length :=
+          branchWeight_mono (lwi_sublist upd c0).length_le
+        dsimp only at hsp
+        split
+        · dsimp only; omega
+        · split
+          · dsimp only; omega
+          · refine Nat.le_trans (runBranch_weight B bestLen fuel _ _) ?_
+            dsimp only
+            omega
+
+
+/-! ### 12. optimality: the search keeps a branch that can still reach the optimum -/
+
+/-- the branch obtained by completing the new bin `[x]` with `comp` -/
+abbrev childBranch (cb : BC.Branch) (x : Nat) (upd comp : List Nat) : BC.Branch :=
+  ⟨BC.lwi upd comp, (cb.bins ++ [[x]]).modify cb.idx (· ++ comp), cb.idx + 1⟩
+
+/-- the spawn loop of `runBranch` -/
+abbrev spawnLoop (B bestLen : Nat) (cb : BC.Branch) (x : Nat) (upd : List Nat) (others : List (List Nat))
+    (acc : List BC.Branch) : List BC.Branch :=
+  others.foldl (fun (acc : List BC.Branch) comp =>
+    let ni := BC.lwi upd comp
+    let nb := (cb.bins ++ [[x]]).modify cb.idx (· ++ comp)
+    if decide (bestLen * B ≤ nb.length * B + sumL ni) then acc else acc ++ [⟨ni, nb, cb.idx + 1⟩]) acc
+
+theorem spawnLoop_subset {B bestLen : Nat} {cb : BC.Branch} {x : Nat} {upd : List Nat} :
+    ∀ (others : List (List Nat)) (acc : List BC.Branch), ∀ b ∈ acc, b ∈ spawnLoop B bestLen cb x upd others acc
+  | [], _, b, hb => hb
+  | comp :: others, acc, b, hb => by
+    show b ∈ spawnLoop B bestLen cb x upd others _
+    apply spawnLoop_subset others
+    dsimp only
+    split
+    · exact hb
+    · exact List.mem_append_left _ hb
+
+theorem spawnLoop_mem {B bestLen : Nat} {cb : BC.Branch} {x : Nat} {upd : List Nat} {c : List Nat} :
+    ∀ (others : List (List Nat)) (acc : List BC.Branch), c ∈ others →
+      ¬ bestLen * B ≤ (childBranch cb x upd c).bins.length * B + sumL (childBranch cb x upd c).items →
+      childBranch cb x upd c ∈ spawnLoop B bestLen cb x upd others acc
+  | comp :: others, acc, hc, hnp => by
+    show _ ∈ spawnLoop B bestLen cb x upd others _
+    rcases List.mem_cons.1 hc with rfl | hc
+    · apply spawnLoop_subset others
+      dsimp only
+      rw [if_neg (by simpa using hnp)]
+      exact List.mem_append_right _ (List.mem_singleton.2 rfl)
+    · exact spawnLoop_mem others _ hc hnp
+
+theorem spawnLoop_sub {B bestLen : Nat} {cb : BC.Branch} {x : Nat} {upd L : List Nat} (hupd : upd.Sublist L) :
+    ∀ (others : List (List Nat)) (acc : List BC.Branch), (∀ b ∈ acc, b.items.Sublist L) →
+      ∀ b ∈ spawnLoop B bestLen cb x upd others acc, b.items.Sublist L
+  | [], _, hacc => hacc
+  | comp :: others, acc, hacc => by
+    show ∀ b ∈ spawnLoop B bestLen cb x upd others _, _
+    apply spawnLoop_sub hupd others
+    dsimp only
+    split
+    · exact hacc
+    · intro b hb
+      rcases List.mem_append.1 hb with hb | hb
+      · exact hacc b hb
+      · rw [List.mem_singleton] at hb
+        subst hb
+        exact (lwi_sublist upd comp).trans hupd
+
+/-- everything already spawned stays spawned -/
+theorem runBranch_spawned_subset (B bestLen : Nat) : ∀ (fuel : Nat) (cb : BC.Branch) (spawned : List BC.Branch),
+    ∀ b ∈ spawned, b ∈ (BC.runBranch B bestLen fuel cb spawned).2
+  | 0, _, _, b, hb => hb
+  | fuel + 1, cb, spawned, b, hb => by
+    rw [BC.runBranch]
+    split
+    · exact hb
+    · rename_i x upd hitems
+      dsimp only
+      cases BC.completions x upd B with
+      | nil =>
+        dsimp only
+        split
+        · exact hb
+        · split
+          · exact hb
+          · exact runBranch_spawned_subset B bestLen fuel _ _ b hb
+      | cons c0 others =>
+        dsimp only
+        have hb' := spawnLoop_subset (B := B) (bestLen := bestLen) (cb := cb) (x := x) (upd := upd)
+          others spawned b hb
+        split
+        · exact hb'
+        · split
+          · exact hb'
+          · exact runBranch_spawned_subset B bestLen fuel _ _ b hb'
+
+/-- the remaining items of every branch are a sub-list of the sorted input -/
+theorem runBranch_sub {L : List Nat} (B bestLen : Nat) : ∀ (fuel : Nat) (cb : BC.Branch)
+    (spawned : List BC.Branch), cb.items.Sublist L → (∀ b ∈ spawned, b.items.Sublist L) →
+    (BC.runBranch B bestLen fuel cb spawned).1.items.Sublist L ∧
+      ∀ b ∈ (BC.runBranch B bestLen fuel cb spawned).2, b.items.Sublist L
+  | 0, _, _, h, hs => ⟨h, hs⟩
+  | fuel + 1, cb, spawned, h, hs => by
+    rw [BC.runBranch]
+    split
+    · exact ⟨h, hs⟩
+    · rename_i x upd hitems
+      have hupd : upd.Sublist L := by
+        rw [hitems] at h
+        exact (List.sublist_cons_self x upd).trans h
+      dsimp only
+      cases BC.completions x upd B with
+      | nil =>
+        dsimp only
+        split
+        · exact ⟨hupd, hs⟩
+        · split
+          · exact ⟨hupd, hs⟩
+          · exact runBranch_sub B bestLen fuel _ _ hupd hs
+      | cons c0 others =>
+        dsimp only
+        have h0 : (BC.lwi upd c0).Sublist L := (lwi_sublist upd c0).trans hupd
+        have hs' := spawnLoop_sub (B := B) (bestLen := bestLen) (cb := cb) (x := x) hupd others spawned hs
+        split
+        · exact ⟨h0, hs'⟩
+        · split
+          · exact ⟨h0, hs'⟩
+          · exact runBranch_sub B bestLen fuel _ _ h0 hs'
+
+
+/-- the branch can still be finished with at most `k` bins in total -/
+def CanFinish (B k : Nat) (cb : BC.Branch) : Prop := ∃ m, cb.bins.length + m ≤ k ∧ Packs B m cb.items
+
+theorem sumL_replicate (m B : Nat) : sumL (List.replicate m B) = m * B := by
+  induction m with
+  | zero => simp [sumL]
+  | succ m ih => simp only [List.replicate_succ, sumL, ih, Nat.succ_mul]; omega
+
+/-- a branch that can reach `k < bestLen` bins is not cut by the bound test -/
+theorem canFinish_not_pruned {B k bestLen : Nat} {cb : BC.Branch} (hB : 0 < B) (hk : k < bestLen)
+    (h : CanFinish B k cb) : ¬ bestLen * B ≤ cb.bins.length * B + sumL cb.items := by
+  obtain ⟨m, hm, hp⟩ := h
+  have h1 := hp.sum_le
+  rw [sumL_replicate] at h1
+  have h2 : (cb.bins.length + m) * B ≤ k * B := Nat.mul_le_mul_right _ hm
+  have h3 : (k + 1) * B ≤ bestLen * B := Nat.mul_le_mul_right _ hk
+  rw [Nat.add_mul] at h2
+  rw [Nat.add_mul, Nat.one_mul] at h3
+  omega
+
+theorem CanFinish.bins_le {B k : Nat} {cb : BC.Branch} (h : CanFinish B k cb) : cb.bins.length ≤ k := by
+  obtain ⟨m, hm, _⟩ := h; omega
+
+/-- **`runBranch` is complete**: if the branch can be finished with `k < bestLen` bins, then either it is
+    finished with at most `k` bins, or one of the spawned branches can be finished with `k` bins. -/
+theorem runBranch_complete {B k bestLen : Nat} {L : List Nat} (hB : 0 < B) (hk : k < bestLen)
+    (hL : Desc L) (hLpos : ∀ v ∈ L, 0 < v) :
+    ∀ (fuel : Nat) (cb : BC.Branch) (spawned : List BC.Branch), cb.items.length ≤ fuel →
+      cb.items.Sublist L → CanFinish B k cb →
+      ((BC.runBranch B bestLen fuel cb spawned).1.items = [] ∧
+        (BC.runBranch B bestLen fuel cb spawned).1.bins.length ≤ k) ∨
+      ∃ b ∈ (BC.runBranch B bestLen fuel cb spawned).2, CanFinish B k b
+  | 0, cb, spawned, hf, _, hc => by
+    left
+    simp only [BC.runBranch]
+    exact ⟨List.eq_nil_of_length_eq_zero (by omega), hc.bins_le⟩
+  | fuel + 1, cb, spawned, hf, hsub, hc => by
+    rw [BC.runBranch]
+    split
+    · rename_i hitems
+      exact Or.inl ⟨hitems, hc.bins_le⟩
+    · rename_i x upd hitems
+      have hupd : upd.Sublist L := by
+        rw [hitems] at hsub
+        exact (List.sublist_cons_self x upd).trans hsub
+      have hfu : upd.length ≤ fuel := by
+        rw [hitems] at hf; simpa using hf
+      obtain ⟨m, hm, hp⟩ := hc
+      rw [hitems] at hp
+      obtain ⟨hm1, hstep⟩ := step_complete (hL.sublist hupd) (fun v hv => hLpos v (hupd.subset hv)) hp
+      -- what is needed of the continued branch `cb'` and the spawned list `sp`
+      have finish : ∀ (cb' : BC.Branch) (sp : List BC.Branch), cb'.items.Sublist upd →
+          (CanFinish B k cb' ∨ ∃ b ∈ sp, CanFinish B k b) →
+          (((if decide (bestLen * B ≤ cb'.bins.length * B + sumL cb'.items) = true then (cb', sp)
+              else if cb'.items.isEmpty = true then (cb', sp)
+              else BC.runBranch B bestLen fuel cb' sp).1.items = [] ∧
+            (if decide (bestLen * B ≤ cb'.bins.length * B + sumL cb'.items) = true then (cb', sp)
+              else if cb'.items.isEmpty = true then (cb', sp)
+              else BC.runBranch B bestLen fuel cb' sp).1.bins.length ≤ k) ∨
+          ∃ b ∈ (if decide (bestLen * B ≤ cb'.bins.length * B + sumL cb'.items) = true then (cb', sp)
+              else if cb'.items.isEmpty = true then (cb', sp)
+              else BC.runBranch B bestLen fuel cb' sp).2, CanFinish B k b) := by
+        intro cb' sp hsub' hcase
+        rcases hcase with hcf | ⟨b, hb, hbf⟩
+        · have hnp := canFinish_not_pruned hB hk hcf
+          rw [if_neg (by simpa using hnp)]
+          split
+          · rename_i he
+            exact Or.inl ⟨List.isEmpty_iff.1 he, hcf.bins_le⟩
+          · exact runBranch_complete hB hk hL hLpos fuel cb' sp
+              (Nat.le_trans hsub'.length_le hfu) (hsub'.trans hupd) hcf
+        · right
+          refine ⟨b, ?_, hbf⟩
+          split
+          · exact hb
+          · split
+            · exact hb
+            · exact runBranch_spawned_subset B bestLen fuel cb' sp b hb
+      dsimp only
+      generalize BC.completions x upd B = comps at hstep
+      cases comps with
+      | nil =>
+        dsimp only
+        refine finish ⟨upd, cb.bins ++ [[x]], cb.idx + 1⟩ spawned (List.Sublist.refl _) ?_
+        left
+        rcases hstep with ⟨_, hp'⟩ | ⟨c, hc, _⟩
+        · exact ⟨m - 1, by simp only [List.length_append, List.length_cons, List.length_nil]; omega, hp'⟩
+        · cases hc
+      | cons c0 others =>
+        dsimp only
+        refine finish (childBranch cb x upd c0) (spawnLoop B bestLen cb x upd others spawned)
+          (lwi_sublist upd c0) ?_
+        rcases hstep with ⟨h0, _⟩ | ⟨c, hc, hp'⟩
+        · cases h0
+        · have hcf : CanFinish B k (childBranch cb x upd c) :=
+            ⟨m - 1, by
+              simp only [List.length_modify, List.length_append, List.length_cons, List.length_nil]; omega,
+              hp'⟩
+          rcases List.mem_cons.1 hc with rfl | hc
+          · exact Or.inl hcf
+          · exact Or.inr ⟨_, spawnLoop_mem others spawned hc (canFinish_not_pruned hB hk hcf), hcf⟩
+
 
 end Prtpy.BCProofs
 
